@@ -54,6 +54,25 @@ func (s *Service) putCommandHandler(conn redcon.Conn, cmd redcon.Command) {
 		pc.PXAT = time.Duration(putCmd.PXAT * int64(time.Millisecond))
 	}
 
+	if putCmd.NX || putCmd.XX {
+		// NX/XX and the expiry options are independent of each other. The switch above
+		// stops at NX/XX, so take the expiry option here.
+		switch {
+		case putCmd.EX != 0:
+			pc.HasEX = true
+			pc.EX = time.Duration(putCmd.EX * float64(time.Second))
+		case putCmd.PX != 0:
+			pc.HasPX = true
+			pc.PX = time.Duration(putCmd.PX * int64(time.Millisecond))
+		case putCmd.EXAT != 0:
+			pc.HasEXAT = true
+			pc.EXAT = time.Duration(putCmd.EXAT * float64(time.Second))
+		case putCmd.PXAT != 0:
+			pc.HasPXAT = true
+			pc.PXAT = time.Duration(putCmd.PXAT * int64(time.Millisecond))
+		}
+	}
+
 	e := newEnv(s.ctx)
 	e.putConfig = &pc
 	e.dmap = putCmd.DMap
